@@ -19,7 +19,7 @@
 EXTENDS Integers, Sequences, FiniteSets, TLC
 
 CONSTANTS
-    Fam,        \* "cmd" | "doc" | "search" | "after" | "year"
+    Fam,        \* "cmd" | "doc" | "search" | "after" | "year" | "mixed"
     N,          \* bound on the number of lines / width of documents
     Deep        \* BOOLEAN: larger document / day sets (thorough tier)
 
@@ -167,19 +167,24 @@ At(y, ln) == [y |-> y, mo |-> ln.mo, d |-> ln.d, s |-> ln.s]
 (* more than 330 days ahead of the sought time (then the previous year:      *)
 (* "timestamp in January and log in December, move log to previous year")    *)
 (* or more than 330 days behind it (then the next year)                      *)
-Eff(ln, T, hy) ==
-    IF hy THEN At(ln.y, ln)
-    ELSE LET delta == (AbsDay(At(T.y, ln)) - AbsDay(T)) * K + (ln.s - T.s) IN
-         At(IF delta > 330 * K THEN T.y - 1 ELSE IF (0 - delta) > 330 * K THEN T.y + 1 ELSE T.y, ln)
-AtOrAfter(ln, T, hy) == Key(Eff(ln, T, hy)) >= Key(T)
+InferYear(ln, T) ==
+    LET delta == (AbsDay(At(T.y, ln)) - AbsDay(T)) * K + (ln.s - T.s) IN
+    IF delta > 330 * K THEN T.y - 1 ELSE IF (0 - delta) > 330 * K THEN T.y + 1 ELSE T.y
+(* the moment a stamp denotes: its own year when it carries one (y # 0), the *)
+(* inferred calendar year otherwise - also when the parser's time_format is  *)
+(* a list / dict that mixes formats with and without a year (mx)             *)
+Eff(ln, T) == At(IF ln.y # 0 THEN ln.y ELSE InferYear(ln, T), ln)
+AtOrAfter(ln, T) == Key(Eff(ln, T)) >= Key(T)
 
 (* the logs the property quantifies over: valid dates of the format; a       *)
-(* year-less stamp is never 29 February                                      *)
+(* year-less stamp is never 29 February; hy = the format(s) have a year,     *)
+(* unless mixed                                                              *)
 AdmitsLog(in) ==
     /\ ValidDate(in.T)
     /\ \A i \in DOMAIN in.lines : in.lines[i].has =>
-         IF in.hy THEN ValidDate(in.lines[i])
-         ELSE ~(in.lines[i].mo = 2 /\ in.lines[i].d = 29) /\ ValidDate(At(in.T.y, in.lines[i]))
+         /\ IF in.lines[i].y # 0 THEN ValidDate(in.lines[i])
+            ELSE ~(in.lines[i].mo = 2 /\ in.lines[i].d = 29) /\ ValidDate(At(in.T.y, in.lines[i]))
+         /\ ~in.mx => (in.hy <=> in.lines[i].y # 0)
 
 Used(in, i) == in.filt => in.lines[i].m          \* with a search string only matching lines are used
 PrevStamp(in, i) ==                                \* closest used, time-stamped line before i (0 = none)
@@ -187,8 +192,8 @@ PrevStamp(in, i) ==                                \* closest used, time-stamped
     IF c = {} THEN 0 ELSE CHOOSE j \in c : \A x \in c : x <= j
 InAfter(in, i) ==
     /\ Used(in, i)
-    /\ IF in.lines[i].has THEN AtOrAfter(in.lines[i], in.T, in.hy)
-       ELSE LET p == PrevStamp(in, i) IN p > 0 /\ AtOrAfter(in.lines[p], in.T, in.hy)
+    /\ IF in.lines[i].has THEN AtOrAfter(in.lines[i], in.T)
+       ELSE LET p == PrevStamp(in, i) IN p > 0 /\ AtOrAfter(in.lines[p], in.T)
 (* precisely the time-stamped lines at or after T plus their continuations  *)
 AfterRef(in) == SelectSeq(Idx(in.lines), LAMBDA i : InAfter(in, i))
 
@@ -197,8 +202,8 @@ NoStamp(m) == Ln(FALSE, 0, 0, 0, 0, m)
 T0 == [y |-> 2021, mo |-> 4, d |-> 10, s |-> 1]
 AfterLines(ms) == {NoStamp(m) : m \in ms} \cup {Ln(TRUE, 2021, 4, 10, s, m) : s \in 0..2, m \in ms}
 AfterInputs ==
-    [lines : SeqsUpTo(AfterLines({TRUE}), N), T : {T0}, hy : {TRUE}, filt : {FALSE}]
-    \cup [lines : SeqsUpTo(AfterLines(BOOLEAN), N - 1), T : {T0}, hy : {TRUE}, filt : {TRUE}]
+    [lines : SeqsUpTo(AfterLines({TRUE}), N), T : {T0}, hy : {TRUE}, mx : {FALSE}, filt : {FALSE}]
+    \cup [lines : SeqsUpTo(AfterLines(BOOLEAN), N - 1), T : {T0}, hy : {TRUE}, mx : {FALSE}, filt : {TRUE}]
 
 (* year inference: one time-stamped line and its continuation, on a grid of *)
 (* dates around both ends of the year and around the 330-day threshold      *)
@@ -212,10 +217,21 @@ TYears  == {2019, 2020, 2021}
 DaysY   == {<<1, 1>>, <<2, 4>>, <<11, 27>>, <<12, 31>>}
 YearInputs ==
     {[lines |-> <<Ln(TRUE, 0, dd[1], dd[2], s, TRUE), NoStamp(TRUE)>>, T |-> [y |-> ty, mo |-> td[1], d |-> td[2], s |-> ts],
-      hy |-> FALSE, filt |-> FALSE] : dd \in Days, s \in 0..2, td \in TDays, ts \in 0..1, ty \in TYears}
+      hy |-> FALSE, mx |-> FALSE, filt |-> FALSE] : dd \in Days, s \in 0..2, td \in TDays, ts \in 0..1, ty \in TYears}
     \cup
     {[lines |-> <<Ln(TRUE, y, dd[1], dd[2], s, TRUE), NoStamp(TRUE)>>, T |-> [y |-> 2020, mo |-> td[1], d |-> td[2], s |-> 1],
-      hy |-> TRUE, filt |-> FALSE] : y \in 2019..2021, dd \in DaysY, s \in 0..2, td \in DaysY}
+      hy |-> TRUE, mx |-> FALSE, filt |-> FALSE] : y \in 2019..2021, dd \in DaysY, s \in 0..2, td \in DaysY}
+
+(* a time_format list / dict that mixes a format with a year and one without: *)
+(* a year-less and a year-bearing stamped line (either order), each with a    *)
+(* continuation line; the explicit year before / in / after the sought year   *)
+MDays == {<<1, 1>>, <<6, 14>>, <<6, 15>>, <<6, 16>>, <<12, 31>>}
+MixedInputs ==
+    {[lines |-> IF first THEN <<Ln(TRUE, 0, a[1], a[2], sa, TRUE), NoStamp(TRUE), Ln(TRUE, y, b[1], b[2], sb, TRUE), NoStamp(TRUE)>>
+                ELSE <<Ln(TRUE, y, b[1], b[2], sb, TRUE), NoStamp(TRUE), Ln(TRUE, 0, a[1], a[2], sa, TRUE), NoStamp(TRUE)>>,
+      T |-> [y |-> 2020, mo |-> td[1], d |-> td[2], s |-> 1], hy |-> FALSE, mx |-> TRUE, filt |-> FALSE] :
+        first \in BOOLEAN, a \in MDays, sa \in {0, 2}, y \in 2019..2021, b \in MDays, sb \in {0, 2},
+        td \in {<<1, 1>>, <<6, 15>>, <<12, 31>>}}
 
 -----------------------------------------------------------------------------
 Inputs == CASE Fam = "cmd" -> CmdInputs
@@ -223,6 +239,7 @@ Inputs == CASE Fam = "cmd" -> CmdInputs
             [] Fam = "search" -> SearchInputs
             [] Fam = "after" -> AfterInputs
             [] Fam = "year" -> YearInputs
+            [] Fam = "mixed" -> MixedInputs
 
 Init == inp \in Inputs /\ k = 0 /\ acc = <<>> /\ inc = FALSE /\ done = FALSE
 
@@ -253,16 +270,16 @@ SearchEnd ==
 
 (* LogFileOutput.get_after: one line per step                               *)
 GetAfterStep ==
-    /\ Fam \in {"after", "year"} /\ ~done /\ k < Len(inp.lines)
+    /\ Fam \in {"after", "year", "mixed"} /\ ~done /\ k < Len(inp.lines)
     /\ LET i == k + 1  ln == inp.lines[i] IN
        IF ~Used(inp, i) THEN UNCHANGED <<acc, inc>>
        ELSE IF ln.has
-         THEN IF AtOrAfter(ln, inp.T, inp.hy) THEN inc' = TRUE /\ acc' = Append(acc, i)
+         THEN IF AtOrAfter(ln, inp.T) THEN inc' = TRUE /\ acc' = Append(acc, i)
                                               ELSE inc' = FALSE /\ acc' = acc
          ELSE inc' = inc /\ acc' = IF inc THEN Append(acc, i) ELSE acc
     /\ k' = k + 1 /\ UNCHANGED <<inp, done>>
 GetAfterEnd ==
-    /\ Fam \in {"after", "year"} /\ ~done /\ k = Len(inp.lines)
+    /\ Fam \in {"after", "year", "mixed"} /\ ~done /\ k = Len(inp.lines)
     /\ done' = TRUE /\ UNCHANGED <<inp, k, acc, inc>>
 
 Next == ValidateCommandOutput \/ ClassifyDoc \/ SearchStep \/ SearchEnd \/ GetAfterStep \/ GetAfterEnd
@@ -284,13 +301,13 @@ SearchMonotone ==
         /\ Rng(acc) \subseteq Rng(MatchIdx(inp))
         /\ \A i, j \in DOMAIN acc : i < j => acc[i] < acc[j]
         /\ Len(acc) = (IF inp.q.num < 0 \/ inp.q.num > Len(MatchIdx(inp)) THEN Len(MatchIdx(inp)) ELSE inp.q.num)
-AfterExact == (Fam \in {"after", "year"} /\ done) => acc = AfterRef(inp)
+AfterExact == (Fam \in {"after", "year", "mixed"} /\ done) => acc = AfterRef(inp)
 (* a year-less stamp is never placed further than 330 days (+ a day) away,  *)
 (* and a stamp moved to the previous (next) calendar year lies before       *)
 (* (after) the sought time - 31 December really is before 1 January 00:30   *)
 YearNear ==
     (Fam = "year" /\ ~inp.hy) =>
-        LET e == Eff(inp.lines[1], inp.T, FALSE)
+        LET e == Eff(inp.lines[1], inp.T)
             dist == AbsDay(e) - AbsDay(inp.T) IN
         /\ AdmitsLog(inp)
         /\ dist <= 331 /\ (0 - dist) <= 331
